@@ -493,8 +493,11 @@ def run_shapes(ctx, mode, types, n_hist, length, maxdim, batch=10, nproc=14):
     wd = ctx.workdir()
     t1 = time.time()
     tus = sorted(set(TU[t] for t in types))
+    from .common import REPO
+    # (one binary name per library tree: checks run against different trees must not evict each other's binaries)
+    rtag = "" if REPO == "/repo" else "_" + hashlib.md5(REPO.encode()).hexdigest()[:6]
     with cf.ThreadPoolExecutor(min(len(tus), 8)) as ex:
-        bins = dict(zip(tus, ex.map(lambda k: ctx.compile_harness("c04_shapes.cc", out_name="c04_shapes_tu%d" % k,
+        bins = dict(zip(tus, ex.map(lambda k: ctx.compile_harness("c04_shapes.cc", out_name="c04_shapes%s_tu%d" % (rtag, k),
                                                                    flags=("-DPPLV_TU=%d" % k,), opt="-O0"), tus)))
 
     def gen(t):
